@@ -12,7 +12,7 @@ META = {
                 text="Every byte string up to a length bound over full/boundary alphabets through the real parser and debug printer, and every single-field mutation of the catalogue's valid messages delivered to real endpoints in reached protocol states (block transfers, observe, TCP/WS sessions), under ASan/UBSan with live asserts; afterwards a canary request must be answered correctly and malformed input must not reach handlers. Also: every field-level rewrite (type x code x token x options kept/dropped) of every datagram of the UDP exchanges, all sequences of Block1/Q-Block1 requests in hostile order, and frame sequences on TCP/WS under every segmentation with <=2 cuts.",
                 note="Not all byte strings: bounded lengths/alphabets, single mutations per state, block-number sequences <=5/6 over 0..11, 2-3 frames x <=2 cuts (see DESIGN 4, 7.4); trusted: sanitizers, the harness's classification of malformed input (ref decoder)."),
     "C03": dict(engine="vx-inproc", technique="exhaustive differential enumeration of byte strings and single-field mutations against an independent reference decoder",
-                text="Exhaustive differential check of coap_pdu_parse (and the stream size/header functions) against an independent RFC 7252/8323/8974 decoder: all byte strings <=3 after 21+ header variants, boundary-alphabet strings up to 5/6 bytes, and every single-field mutation of a corpus of valid encodings; accept/reject must agree in both directions and accepted messages must decode identically.",
+                text="Exhaustive differential check of coap_pdu_parse (and the stream size/header functions) against an independent RFC 7252/8323/8974 decoder: all byte strings <=3 after 21+ header variants, boundary-alphabet strings up to 5/6 bytes, and every single-field mutation of a corpus of valid encodings; accept/reject must agree in both directions and accepted messages must decode identically. Space fits-exactly: well-formed messages at the top of what a receive PDU of size 60 / 1148 may hold, three framings.",
                 note="Bound: lengths/alphabets as stated in evidence; trusted: ref/refcodec.c (self-tested against hand-encoded vectors)."),
     "C04": dict(engine="vx-inproc", technique="explicit-state BFS over edit histories on real PDUs with canonical-state dedup against a list model",
                 text="Breadth-first search over sequences of insert/update/remove/retoken/duplicate edits applied to real coap_pdu_t objects (fresh and parsed, tight and roomy allocations), deduplicated on the canonical (model, allocator fields) state; after every edit the accessor dump, the re-serialised bytes and the internal size fields must equal the abstract list model.",
@@ -33,7 +33,7 @@ META = {
                 text="Real libcoap client and server doing Block1/Block2 on the application's behalf: fault-free sweep over body lengths around every block-size multiple x SZX x MTU x delivery mode x CON/NON, and all schedules with <=1/2 deviations for representative transfers; the receiver must get exactly the sender's body (once, or as tiling blocks), handlers only see application tokens, every datagram fits the MTU, release callbacks run exactly once.",
                 note="Bounds per evidence; 64 KiB bodies fault-free only."),
     "C10": dict(engine="vx-inproc+netsim", technique="exhaustive product enumeration of request features x resource tables through the real receive path against an executable decision table",
-                text="Full Cartesian product of request type x code x token x Uri-Path x option subsets (<=2/3; plus a repetition sweep: every defined option twice; plus the <=1-option product on a session the peer last used with the other destination class) x destination x resource table injected as datagrams into a real server endpoint; replies are compared with an independent decision table of the statement's rules (reply count, token/mid echo, code priority order, handler invocation, No-Response and multicast suppression).",
+                text="Full Cartesian product of request type x code x token x Uri-Path x option subsets (<=2/3; plus a repetition sweep: every defined option twice; plus the <=1-option product on a session the peer last used with the other destination class) x destination x resource table injected as datagrams into a real server endpoint; replies are compared with an independent decision table of the statement's rules (reply count, token/mid echo, code priority order, handler invocation, No-Response and multicast suppression). The third space also uses message ids 0x0000 / 0xFFFF.",
                 note="Request datagrams only (responses are C07); where the statement is silent nothing is compared."),
     "C11": dict(engine="vx-netsim", technique="exhaustive enumeration of observe operation sequences x deviation-bounded schedules with a per-observer reference automaton",
                 text="All register/change/cancel/re-register/RST/delete/close operation sequences up to depth 4/6 by 1-2 clients and a raw observer on 2 resources, each under all schedules with <=1/2 deviations; a per-observer automaton checks tokens, strictly increasing Observe values (RFC 7641 serial order), a CON at least every sixth notification, eventual notification of the last state, silence after deregistration, single entry on re-registration, session kept alive. Deviations include the socket refusing the first transmission after a change once (the notification has to be tried again).",
@@ -48,7 +48,7 @@ META = {
                 text="Full product of message shapes x security contexts (ids 0-7 bytes, ID Context absent / 1 / 8 / 23 / 24 / 25 / 40 bytes, salt, secret) x partial IVs: libcoap's protected output must equal an independent RFC 8613 implementation (OpenSSL AES-CCM/HKDF, validated on the Appendix C vectors) byte for byte and unprotect to the original; every single-bit flip and truncation of the protected part and every one-parameter context change must be rejected. Stage c14seq: all histories (depth 5/6) of GET / Observe register / cancel on two tokens and resource changes against a real libcoap OSCORE server, and (depth 4/5) the same with tampered, replayed and unknown-kid datagrams in between: every response and notification must verify under the binding of the right request, rejected datagrams never reach a handler.",
                 note="Trusted: OpenSSL primitives, ref/refoscore.c validated by RFC 8613 Appendix C vectors."),
     "C15": dict(engine="vx-inproc", technique="explicit-state BFS over delivery histories on a real recipient context against a set-based replay-window reference; exhaustive crash-point enumeration on the sender",
-                text="All histories up to depth 4/6 over fresh(gap)/late/replay/forge deliveries to a real OSCORE recipient context for several window sizes and B.1.2 on/off: at-most-once acceptance, forgeries leave state and all depth-1 continuations unchanged; sender: every crash point between save callbacks for several ssn_freq, no partial IV reuse across restarts. Every protected datagram the recipient emits is filed under the nonce it uses (own Partial IV or the request's): two different ciphertexts under one nonce fail; under B.1.2 the first request is delivered twice.",
+                text="All histories up to depth 4/6 over fresh(gap)/late/replay/forge deliveries to a real OSCORE recipient context for several window sizes and B.1.2 on/off: at-most-once acceptance, forgeries leave state and all depth-1 continuations unchanged; sender: every crash point between save callbacks for several ssn_freq, no partial IV reuse across restarts. Every protected datagram the recipient emits is filed under the nonce it uses (own Partial IV or the request's): two different ciphertexts under one nonce fail; under B.1.2 the first request is delivered twice. Forgeries include one with a ciphertext shorter than the authentication tag.",
                 note="Bounds per evidence; forged/late messages are manufactured by the reference implementation."),
     "C16": dict(engine="vx-inproc", technique="exhaustive string enumeration over boundary alphabets with exact-size heap inputs (ASan) against an RFC 3986/7252 reference; exhaustive injectivity check",
                 text="All URI/path/query strings up to length 5-7 over boundary alphabets, all output buffer sizes, and all short segment lists over the full byte range through the public URI functions; results must equal an independent RFC 3986 / RFC 7252 6.4-6.5 reference, reconstruction must be injective and round-trip, and no byte outside the length-delimited input is read. Long segments (option header boundary, 255-byte limit) through every buffer size, also followed by dot-segments that remove later segments.",
